@@ -75,7 +75,7 @@ PROPS = {
     "C02": dict(level="proof", streams=[("K1", 1500)], configs_quick=Q4, configs_thorough=T4, theorems=reg("Voi.Props.C02", "Voi.Props.C01Concrete")),
     "C03": dict(level="proof", streams=[("G1", 1500), ("G2", 800)], configs_quick=T4, configs_thorough=T4, thorough_mult=4,
                 theorems=reg("Voi.Props.C03", "Voi.Props.C03.Basic", "Voi.Props.C03.Buckets", "Voi.Proofs.SpecBridge", "Voi.Proofs.EdwardsCurve", "Voi.Proofs.EdwardsExt", "Voi.Proofs.Ed25519Group", "Voi.Proofs.Primes")),
-    "C04": dict(level="proof", gens=["go2ir"], streams=[("T0", 6000), ("F2", 5000), ("G1", 600)],  # G1: points with unreduced coordinate limbs through every group routine incl. the AVX2 lane packing configs_quick=["default", "purego", "force32bit"], configs_thorough=T4,
+    "C04": dict(level="proof", gens=["go2ir"], streams=[("T0", 6000), ("F2", 5000), ("G1", 600)], configs_quick=["default", "purego", "force32bit"], configs_thorough=T4,
                 theorems={**IR_CORE, **L0_FIELD, **reg("Voi.Proofs.SqrtRatio")}),
     "C05": dict(level="proof", gens=["go2ir"], streams=[("S1", 4000), ("T0", 4000)], configs_quick=["default", "force32bit"], configs_thorough=T4,
                 theorems={**IR_CORE, **L0_SCALAR, **reg("Voi.Props.L0.Pred_ScMinimalVartime", "Voi.Props.ScMinimal", "Voi.Props.PredBridgeSc")}),
@@ -134,6 +134,10 @@ PROPS["C20"] = dict(level="proof", gens=["consts"], streams=[("K0", 2200)], conf
                     explanation="every package-level constant and table entry (both limb encodings), dumped by interpreting the real initialisers, equals its defining value: kernel-evaluated; "
                                 "the run-time tables (incl. the AVX2 tables built in init) are compared exhaustively by stream K0 in four configurations")
 NOT_YET = {}
+for _k, _c in PROPS.items():
+    assert _c.get("configs_quick") and _c.get("configs_thorough"), "property %s lacks a configuration list" % _k
+    _v = [(x[0], (x[2].get("parallel"), x[2].get("race")) if len(x) > 2 else None) for x in _c["streams"]]
+    assert len(_v) == len(set(_v)), "property %s lists a stream variant twice" % _k
 
 
 LEVEL_TEXT = {
